@@ -308,21 +308,50 @@ theorem wfInsert_of_reduce (nsq : K → K) (data gs : List (Fld K)) (hred : redu
   unfold wfInsert; rw [hred]; clear hred
   induction gs generalizing out with
   | nil => rfl
-  | cons g gs ih => simp only [List.map_cons, List.foldl_cons]; exact ih _
+  | cons g gs ih =>
+    rw [List.map_cons, List.foldl_cons, List.foldl_cons]
+    exact ih _
 
-/-- **`Wavefront.insert(out, weight)` adds `weight * |field|^2` and nothing else**, sample by sample, for any number of
-overlapping fields, any target with prior content, any weight. *Partial*: the two facts about `lentil.field.reduce`
-that C06 proves (`reduce_total`: the reduced fields `gs` have the same total embedding as `data`; `reduce_disjoint`:
-their extents are pairwise non-overlapping) enter as the hypotheses `htot`, `hdis` until those theorems are merged. -/
-theorem wavefront_insert_weight_partial (nsq : K → K) (h0 : nsq 0 = 0) (data gs : List (Fld K))
-    (hred : reduce data = gs.map some)
-    (hdis : gs.Pairwise (fun a b => ∀ r c, ¬ (a.extent.inb r c = true ∧ b.extent.inb r c = true)))
-    (htot : ∀ r c, sumList gs (fun g => g.emb r c) = sumList data (fun f => f.emb r c))
-    (out : Arr K) (w : K) :
-    ∃ out', wfInsert nsq data out w = some out' ∧ out'.s0 = out.s0 ∧ out'.s1 = out.s1 ∧
+/-- when `Wavefront.insert` succeeds, `reduce` returned fields only (no `none`: the origin-pixel corner where NumPy raises) -/
+theorem wfInsert_some (nsq : K → K) (data : List (Fld K)) (out out' : Arr K) (w : K)
+    (h : wfInsert nsq data out w = some out') : ∃ gs : List (Fld K), reduce data = gs.map some := by
+  unfold wfInsert at h
+  generalize reduce data = l at h
+  have hnone : ∀ (l : List (Option (Fld K))), l.foldl (insertStep nsq w) none = none := by
+    intro l; induction l with
+    | nil => rfl
+    | cons x xs ih => rw [List.foldl_cons]; exact ih
+  induction l generalizing out with
+  | nil => exact ⟨[], rfl⟩
+  | cons x xs ih =>
+    cases x with
+    | none =>
+      rw [List.foldl_cons] at h
+      have : insertStep nsq w (some out) (none : Option (Fld K)) = none := rfl
+      rw [this, hnone] at h; exact absurd h (by simp)
+    | some g =>
+      rw [List.foldl_cons] at h
+      have : insertStep nsq w (some out) (some g) = some (insertArr g out w nsq) := rfl
+      rw [this] at h
+      obtain ⟨gs, hgs⟩ := ih _ h
+      exact ⟨g :: gs, by rw [hgs]; rfl⟩
+
+/-- **`Wavefront.insert(out, weight)` adds `weight * |field|^2` and nothing else**: whenever the call returns, every
+sample of the target is its prior content plus `weight` times the squared modulus of the *coherent sum* of all fields at
+that sample (`nsq z = |z^2|`, `nsq 0 = 0`), for any number of overlapping fields of any shapes and offsets, any target
+shape, any weight; the target's shape is unchanged. (Uses `reduce_total` and `reduce_pairwise_disjoint` of C06.) -/
+theorem wavefront_insert_weight (nsq : K → K) (h0 : nsq 0 = 0) (data : List (Fld K))
+    (hpos : ∀ f ∈ data, 0 < f.arr.s0 ∧ 0 < f.arr.s1) (out out' : Arr K) (w : K)
+    (h : wfInsert nsq data out w = some out') :
+    out'.s0 = out.s0 ∧ out'.s1 = out.s1 ∧
       ∀ i j, 0 ≤ i ∧ i < out.s0 → 0 ≤ j ∧ j < out.s1 →
         out'.get i j = out.get i j + nsq (sumList data (fun f => f.emb (i - out.s0 / 2) (j - out.s1 / 2))) * w := by
-  refine ⟨_, wfInsert_of_reduce nsq data gs hred out w, ?_, ?_, ?_⟩
+  obtain ⟨gs, hred⟩ := wfInsert_some nsq data out out' w h
+  have hdis := C06.reduce_pairwise_disjoint data hpos gs hred
+  have htot := C06.reduce_total data hpos gs hred
+  rw [wfInsert_of_reduce nsq data gs hred out w, Option.some.injEq] at h
+  subst h
+  refine ⟨?_, ?_, ?_⟩
   · clear hdis htot hred
     induction gs generalizing out with
     | nil => rfl
@@ -335,16 +364,14 @@ theorem wavefront_insert_weight_partial (nsq : K → K) (h0 : nsq 0 = 0) (data g
     rw [insert_disjoint_normSq nsq h0 gs hdis out w i j hi hj, htot]
 
 /-- **`Wavefront.intensity` equals `|Wavefront.field|^2`, sample by sample**, for any number of fields, overlapping or
-not: contributions are added as complex amplitudes before the squared modulus. *Partial* in the same sense as
-`wavefront_insert_weight_partial` (reduce facts as hypotheses). -/
-theorem intensity_eq_normSq_field_partial (nsq : K → K) (h0 : nsq 0 = 0) (S0 S1 : Int) (data gs : List (Fld K))
-    (hred : reduce data = gs.map some)
-    (hdis : gs.Pairwise (fun a b => ∀ r c, ¬ (a.extent.inb r c = true ∧ b.extent.inb r c = true)))
-    (htot : ∀ r c, sumList gs (fun g => g.emb r c) = sumList data (fun f => f.emb r c)) :
-    ∃ I, wfIntensity 1 nsq S0 S1 data = some I ∧
+not: contributions landing on the same sample are added as complex amplitudes before the squared modulus, never as
+intensities -/
+theorem intensity_eq_normSq_field (nsq : K → K) (h0 : nsq 0 = 0) (S0 S1 : Int) (data : List (Fld K))
+    (hpos : ∀ f ∈ data, 0 < f.arr.s0 ∧ 0 < f.arr.s1) (I : Arr K) (h : wfIntensity 1 nsq S0 S1 data = some I) :
+    I.s0 = S0 ∧ I.s1 = S1 ∧
       ∀ i j, 0 ≤ i ∧ i < S0 → 0 ≤ j ∧ j < S1 → I.get i j = nsq ((wfField 1 S0 S1 data).get i j) := by
-  obtain ⟨I, hI, _, _, hget⟩ := wavefront_insert_weight_partial nsq h0 data gs hred hdis htot (zerosArr S0 S1) 1
-  refine ⟨I, hI, ?_⟩
+  obtain ⟨e0, e1, hget⟩ := wavefront_insert_weight nsq h0 data hpos (zerosArr S0 S1) I 1 h
+  refine ⟨e0, e1, ?_⟩
   intro i j hi hj
   rw [hget i j hi hj, field_eq_sum S0 S1 data i j hi hj]
   simp [zerosArr]
